@@ -156,6 +156,10 @@ func family(fam string, S int, th bool) []*scenario {
 		for _, n := range []int{1, 2, 3, 4, 5, 6} {
 			out = append(out, one("mem", segs(n), nil))
 		}
+	case "hist":
+		// explored WITHOUT canonical-state de-duplication (Config.NoDedup): hidden state that no
+		// canonical form shows cannot make the search merge away the history that exposes it
+		out = append(out, one("mem", segs(3), nil), one("mem", segs(5), nil))
 	case "tiny":
 		// every history, no deviation bound (finite because every Interest has 4 transmissions)
 		out = append(out, one("mem", 1, nil), one("mem", S+1, nil))
@@ -247,6 +251,7 @@ func family(fam string, S int, th bool) []*scenario {
 func build(cfg string) explore.System {
 	var fam string
 	var k int
+	cfg = strings.Replace(cfg, "(no dedup)", "", 1) // replay files carry the display name
 	if _, err := fmt.Sscanf(cfg, "%s k=%d", &fam, &k); err != nil {
 		report.Fatal("bad config name %q", cfg)
 	}
@@ -255,6 +260,10 @@ func build(cfg string) explore.System {
 	s.scen = family(fam, S, thoroughTier())
 	s.index()
 	return s
+}
+
+func histCfg(k int) explore.Config {
+	return explore.Config{Name: fmt.Sprintf("hist(no dedup) k=%d", k), BuildName: fmt.Sprintf("hist k=%d", k), MaxDepth: 100000, MaxDev: k, NoDedup: true}
 }
 
 func cfg(fam string, k int) explore.Config {
@@ -289,11 +298,11 @@ func allConfigs(th bool) []explore.Config {
 	// the k=0 runs come first so that a defect visible on the default schedule is reported with
 	// that (shortest) history
 	c := []explore.Config{cfg("ver", 0), cfg("rem", 0), cfg("dual", 0), cfg("slack", 0),
-		cfg("ver", 1), cfg("rem", 1), cfg("dual", 1), cfg("slack", 1), cfg("perm", -1), cfg("fifo", 0), cfg("sched1", 1), cfg("sched2", 2)}
+		cfg("ver", 1), cfg("rem", 1), cfg("dual", 1), cfg("slack", 1), cfg("perm", -1), cfg("fifo", 0), cfg("sched1", 1), cfg("sched2", 2), histCfg(2)}
 	if th {
 		c = []explore.Config{cfg("ver", 0), cfg("rem", 0), cfg("dual", 0), cfg("slack", 0),
 			cfg("ver", 2), cfg("rem", 2), cfg("dual", 2), cfg("slack", 2), cfg("perm", -1), cfg("tiny", -1), cfg("fifo", 0),
-			cfg("sched1", 1), cfg("sched3", 3), cfg("sched2", 2)}
+			cfg("sched1", 1), histCfg(3), cfg("sched3", 3), cfg("sched2", 2)}
 	}
 	return c
 }
@@ -307,6 +316,7 @@ var assumptions = []string{
 	"scaled model: pSegmentSize overridden to 4 at check time (cmd/xform -const) with content lengths 1..45 (1..12 segments, crossing the fetch window of 10); the real constant 8000 is exercised by a second build with lengths 1, 7999, 8000, 8001, 15999, 16000, 16001, 24001 (thorough: 88001)",
 	"content bytes are a position-dependent hash so that swapped, duplicated, dropped or shifted segments change the byte stream",
 	"error completion is accepted only if some Interest name of that fetch timed out more than Retries(3) times or received a Nack / engine error (final, never retried); a packet absent from the store (never published or removed) makes its Interests time out",
+	"family hist (3- and 5-segment object, one consumer, k<=2 quick / 3 thorough) is explored with de-duplication switched off: every history is its own state",
 	"canonical state = scenario + removals injected + consumer observations + per-name timeout counts + network list + white-box dump of the client queues and fetcher; finished runs collapse to one state",
 	"BoltStore runs with NoSync on a per-process file under /tmp that is emptied between instances (durability is not part of the property)",
 	"fetcher.doCheck termination is predicted by a transcription of its loop (hook VerifDoCheckSpins) because a spinning goroutine cannot be interrupted; an unpredicted hang is turned into CHECK-ERROR by a watchdog",
